@@ -406,9 +406,11 @@ impl InstructionGenerator {
     /// they exist from the start of the module or subprogram that declares them, so a
     /// DIM that control flow jumped over (GOTO, a branch not taken) still counts.
     /// Collects those DIM statements, also from the blocks nested in the given statements.
-    /// `can_bypass` is set if one of them is inside a block, or if there is a label (a jump
-    /// target or an error handler) anywhere: otherwise every DIM is executed before the
-    /// variable can be used.
+    /// `can_bypass` is set if one of them is inside a block, if there is a label (a jump
+    /// target or an error handler) or an ON ERROR statement anywhere (a trapped error in an
+    /// earlier variable of the same DIM statement skips the rest of it), or if one of them
+    /// is SHARED (a subprogram called before the DIM statement runs can use the variable):
+    /// otherwise every DIM is executed before the variable can be used.
     fn collect_static_dims(
         statements: &Statements,
         nested: bool,
@@ -424,14 +426,14 @@ impl InstructionGenerator {
                         .cloned()
                         .collect();
                     if !variables.is_empty() {
-                        *can_bypass |= nested;
+                        *can_bypass |= nested || *shared;
                         result.push(DimList {
                             shared: *shared,
                             variables,
                         });
                     }
                 }
-                Statement::Label(_) => {
+                Statement::Label(_) | Statement::OnError(_) => {
                     *can_bypass = true;
                 }
                 Statement::IfBlock(IfBlock {
